@@ -548,3 +548,19 @@ func CompareObserved(j *ReplayJob, o *ReplayOut) (agree bool, detail string) {
 	}
 	return true, ""
 }
+
+
+// ShowValue renders a value for debugging.
+func (x *Exec) ShowValue(v Value) string {
+	switch vv := v.(type) {
+	case *Term:
+		return vv.Show(3)
+	case IfaceV:
+		s := "iface{tag=" + vv.Tag.Show(2)
+		for id, p := range vv.Pay {
+			s += fmt.Sprintf(" %d:%s", id, x.ShowValue(p))
+		}
+		return s + "}"
+	}
+	return fmt.Sprintf("%T", v)
+}
